@@ -47,7 +47,8 @@ STDLIB = {
     "io": {"BytesIO": "c:io.BytesIO"},
     "binascii": {"hexlify": "f", "unhexlify": "f", "Error": "c:binascii.Error"},
     "hashlib": {"sha1": "f", "sha256": "f", "sha512": "f", "md5": "f", "sha384": "f"},
-    "base64": {"b64encode": "f", "b64decode": "f", "encodebytes": "f", "decodebytes": "f"},
+    "base64": {"b64encode": "f", "b64decode": "f", "encodebytes": "f", "decodebytes": "f", "binascii": "m:binascii"},
+    "bcrypt": {"kdf": "f"},
     "weakref": {"proxy": "f", "ref": "f"},
     "sys": {"exc_info": "f", "maxsize": 2 ** 63 - 1, "platform": "linux"},
     "select": {"select": "f", "error": "c:OSError"},
